@@ -44,6 +44,9 @@ type Engine struct {
 	methodCache sync.Map // typeMethodKey -> *ssa.Function
 	implCache   sync.Map
 
+	srcMu    sync.Mutex
+	srcCache map[string][]string
+
 	MaxSteps     int64
 	MaxDecisions int
 	Trace        bool
@@ -112,6 +115,33 @@ func Load(cfg LoadConfig) (*Engine, error) {
 	}
 	e.sharedPath = &Path{eng: e, shared: true, globals: map[*ssa.Global]*Value{}, inited: map[*ssa.Package]bool{}}
 	return e, nil
+}
+
+// srcLine returns the trimmed source text of "relpath:line" inside the repository.
+func (e *Engine) srcLine(site string) string {
+	i := strings.LastIndex(site, ":")
+	if i < 0 {
+		return ""
+	}
+	var ln int
+	fmt.Sscan(site[i+1:], &ln)
+	e.srcMu.Lock()
+	defer e.srcMu.Unlock()
+	if e.srcCache == nil {
+		e.srcCache = map[string][]string{}
+	}
+	lines, ok := e.srcCache[site[:i]]
+	if !ok {
+		b, err := os.ReadFile(e.RepoDir + "/" + site[:i])
+		if err == nil {
+			lines = strings.Split(string(b), "\n")
+		}
+		e.srcCache[site[:i]] = lines
+	}
+	if ln >= 1 && ln <= len(lines) {
+		return strings.TrimSpace(lines[ln-1])
+	}
+	return ""
 }
 
 // FindFunc resolves "pkgpath.Name" or "(pkgpath.T).M" / "(*pkgpath.T).M".
